@@ -751,7 +751,14 @@ class C05(Prop):
         last = getattr(self, "_last", None)
         r = last[1] if last is not None and last[0] is case else None
         t1 = ((r or {}).get("dump") or {}).get("ok")
-        return [{"op": "c05_ti_cycle", "args": {"text": text, "floats": floats_of_text(text, t1)}}]
+        reqs = [{"op": "c05_ti_cycle", "args": {"text": text, "floats": floats_of_text(text, t1)}}]
+        if case["op"] == "ti":
+            # tie of the Lean specification `TI.down` (the theorems C05_ti_faithful_down*) to the spec-side `legacy.ti_sections`
+            a = case["args"]
+            t = L.vt(a["version"])
+            reqs.append({"op": "c05_ti_down", "args": {"spec": TF.model_tree_spec(a["spec"]), "vs": a["version"], "ver": [t[0], t[1]],
+                                                       "child_key": a.get("child_key", "addons")}})
+        return reqs
 
     def has_rpms_model(self):
         p = os.path.join(checklib.LEAN, "ProductMD", "Model", "RpmsLegacy.lean")
@@ -763,6 +770,8 @@ class C05(Prop):
         if len(outs) == 3 and isinstance(res, dict):
             res["_down"] = json.loads(outs[1]) if isinstance(outs[1], str) else outs[1]
             res["_expected"] = json.loads(outs[2]) if isinstance(outs[2], str) else outs[2]
+        if len(outs) == 2 and isinstance(res, dict) and case["op"] == "ti":
+            res["_ti_down"] = json.loads(outs[1]) if isinstance(outs[1], str) else outs[1]
         return res
 
     def canon_model(self, fmt, snap):
@@ -811,6 +820,18 @@ class C05(Prop):
                 got = CF.canon(model_out["_expected"])
                 if not r and checklib.canon(ex) != checklib.canon(got):
                     r["spec-side expectation (legacy.ci_expect)"], m["Lean CI.expected"] = first_diff(got, ex), "differs"
+        if not r and case["op"] == "ti" and isinstance(model_out, dict) and "_ti_down" in model_out:
+            a = case["args"]
+            dn = model_out["_ti_down"]
+            if isinstance(dn, dict) and "ok" in dn:
+                # Lean: the current writer's file with the documented differences applied; [general] is C17's subject
+                got = dict((sec, dict(map(tuple, opts))) for sec, opts in dn["ok"] if sec != "general")
+                want = L.ti_sections(a["spec"], a["version"], a.get("child_key", "addons"))
+                self.tie_ti = getattr(self, "tie_ti", 0) + 1
+                if os.environ.get("C05_TIE_DEBUG"):
+                    import sys; sys.stderr.write("tie_ti %d %s %s\n" % (self.tie_ti, a["version"], got == want))
+                if got != want:
+                    r["spec-side down-conversion (legacy.ti_sections)"], m["Lean TI.down"] = first_diff(want, got), "differs"
         if r:
             return {"real": r, "model": m}
         return None
